@@ -7,7 +7,7 @@ use vcore::rt::{self, digest_str, esc, Acc, Args, Report};
 use vcore::sgr::{self, from_style, to_style, MColor, MStyle, UL_KINDS};
 use vcore::vt::{self, Ev};
 
-const RULE: &str = "Styles: exhaustively all 4096 effect sets; all 16 palette + 256 indexed colours and all 256 values of each RGB component in each of the three colour slots; seeded random full styles. For each style: (1) rendered text strips to nothing and the reference parser sees only plain CSI..m events, (2) the reference SGR interpreter from the default state reproduces fg/bg/underline colour/effects (palette underline colour k comes back as index k; when several underline kinds are set any one of them is accepted), (3) reset form empty iff plain, otherwise it restores the default state, (4) Display == Style::render() == write_to bytes, write_reset_to == render_reset, (5) every format spec of the grid (width x fill/align x precision x alternate) gives the same bytes as the plain spec. Non-trivial = style has at least one effect or colour (distinct by style value; for the grid: distinct (style, spec) with a width or precision that would alter a plain &str).";
+const RULE: &str = "Styles: exhaustively all 4096 effect sets; all 16 palette + 256 indexed colours and all 256 values of each RGB component in each of the three colour slots; seeded random full styles. For each style: (1) rendered text strips to nothing and the reference parser sees only plain CSI..m events, (2) the reference SGR interpreter from the default state reproduces fg/bg/underline colour/effects (palette underline colour k comes back as index k; when several underline kinds are set any one of them is accepted), (3) reset form empty iff plain, otherwise it restores the default state, (4) Display == Style::render() == write_to bytes (into a Vec and into writers that accept only 1, 2, 5 or 7 bytes per call), write_reset_to == render_reset, (5) every format spec of the grid (width x fill/align x precision x alternate) gives the same bytes as the plain spec. Non-trivial = style has at least one effect or colour (distinct by style value; for the grid: distinct (style, spec) with a width or precision that would alter a plain &str).";
 
 fn arb_color() -> impl Strategy<Value = MColor> {
     prop_oneof![
@@ -83,6 +83,25 @@ fn write_bytes(f: impl FnOnce(&mut dyn std::io::Write) -> std::io::Result<()>) -
     Ok(v)
 }
 
+/// a legal `io::Write` that accepts at most `k` bytes per call
+struct Dribble(Vec<u8>, usize);
+impl std::io::Write for Dribble {
+    fn write(&mut self, buf: &[u8]) -> std::io::Result<usize> {
+        let n = buf.len().min(self.1);
+        self.0.extend_from_slice(&buf[..n]);
+        Ok(n)
+    }
+    fn flush(&mut self) -> std::io::Result<()> {
+        Ok(())
+    }
+}
+
+fn write_bytes_dribble(k: usize, f: impl FnOnce(&mut dyn std::io::Write) -> std::io::Result<()>) -> Result<Vec<u8>, String> {
+    let mut d = Dribble(Vec::new(), k);
+    f(&mut d).map_err(|e| format!("write failed on a writer taking {k} byte(s) per call: {e}"))?;
+    Ok(d.0)
+}
+
 /// oracles 1-4 on one style
 fn check_style(m: MStyle) -> Result<(), String> {
     let style = to_style(m);
@@ -103,6 +122,16 @@ fn check_style(m: MStyle) -> Result<(), String> {
     let w = write_bytes(|w| style.write_to(w))?;
     if w != disp {
         return Err(format!("write_to gives {} but Display gives {}", esc(&w), esc(&disp)));
+    }
+    for k in [1usize, 2, 5, 7] {
+        let w = write_bytes_dribble(k, |w| style.write_to(w))?;
+        if w != disp {
+            return Err(format!("write_to into a writer accepting {k} byte(s) per call delivers {} but Display gives {}", esc(&w), esc(&disp)));
+        }
+        let wr = write_bytes_dribble(k, |w| style.write_reset_to(w))?;
+        if wr != format!("{style:#}").into_bytes() {
+            return Err(format!("write_reset_to into a writer accepting {k} byte(s) per call delivers {}", esc(&wr)));
+        }
     }
     // (3) reset
     let alt = format!("{style:#}").into_bytes();
